@@ -9,8 +9,8 @@ CONSTANTS
   Gran = 2
   Costs = {1}
   Steps = {1, 2}
-  MaxNow = 6
-  Ids = {"x", "y", "z"}
+  MaxNow = 5
+  Ids = {"x", "y", "z", "u"}
   N = 3
   Mode = "conc"
   Variant = "none"
